@@ -177,6 +177,22 @@ def d2_contents(facts, rep):
             ok = ok and res is not None and dominated_by_edges(fn, c[0], nonnull_edges(fn, res))[0]
         rep.ob('D2', 'K10', fn, 'calloc zero-fills exactly the byte count it allocated, and only a non-null block', ok,
                'memset size differs from the allocation size (tail not zeroed / overrun) or a null result is written')
+        # ... and EVERY block it returns: once the result is known to be non-null, each path to the return passes the memset.
+        # (a block of any size can come back dirty from a cache: the huge-object cache keeps freed blocks above the default
+        # sieve size as soon as TBBMALLOC_SET_HUGE_SIZE_THRESHOLD is configured)
+        res = var_of(fn, ms[0][2].get('a', [None])[0]) if ms[0][2].get('a') else None
+        mpos = set(c[0] for c in ms)
+        ne = nonnull_edges(fn, res) if res is not None else set()
+        if not ne:
+            raise AnalysisBroken('scalable_calloc: the null test of the result was not found')
+        bad = []
+        for (b, si) in sorted(ne):
+            ok2, wit = every_path_passes(fn, (fn.blocks[b]['succ'][si], -1), lambda p_, e: p_ in mpos)
+            if not ok2:
+                bad.append(wit)
+        rep.ob('D2', 'K1', fn, 'calloc zero-fills every non-null block it returns', not bad,
+               'a path returns the block without the memset (%s): a block that is reused from a cache (any size once the huge size threshold '
+               'is configured) comes back with its old contents' % '; '.join(bad[:2]), key_extra='always-zero')
     for fn in facts.get(RI + 'reallocAligned'):
         mc = calls_named(fn, ('memcpy',))
         fr = calls_named(fn, ('internalPoolFree',))
